@@ -114,6 +114,12 @@ def shards(tier):
         for c in range(8):
             out.append({'block': 'InttoFP_SP', 'part': half, 'chunk': c})
     out.append({'block': 'FPtoInt_SP', 'part': 'all'})
+    # the same blocks driven through a directly constructed Simulator(hw) (a sequence of changing operands on one instance)
+    for blk in BINARY:
+        out.append({'block': blk, 'part': 'fargaps', 'nm': 6, 'direct': 1})
+        out.append({'block': blk, 'part': 'bitflip', 'nm': 6, 'direct': 1})
+    out.append({'block': 'InttoFP_SP', 'part': 'pow2', 'direct': 1})
+    out.append({'block': 'FPtoInt_SP', 'part': 'all', 'direct': 1})
     return out
 
 
@@ -308,7 +314,7 @@ def boundary_pairs(d):
 _ELABORATED_ONLY = []
 
 
-def build(block, _first=True):
+def build(block, _first=True, direct=False):
     if _first:
         # the same block is first elaborated in another system that is never simulated and stays alive (same instance
         # paths, same wire names): what one system builds must not be picked up by the next one
@@ -336,7 +342,12 @@ def build(block, _first=True):
         raise ValueError(block)
     if not _first:
         return hw
-    sim = hw.getSimulator()
+    if direct:
+        # the simulator class constructed directly (the path of the older examples) instead of hw.getSimulator()
+        from py4hw.simulation import Simulator
+        sim = Simulator(hw)
+    else:
+        sim = hw.getSimulator()
     core.bystander()
 
     def ev(x, y=0):
@@ -395,7 +406,7 @@ def _arith_detail(blk, x, y, r, exact):
 # ------------------------------------------------------------------ shard runners
 def run_binary(d):
     blk = d['block']
-    ev = build(blk)
+    ev = build(blk, direct=bool(d.get('direct')))
     col = Collector(d)
     evals = nontriv = skipped = 0
     outcomes = set()
@@ -484,7 +495,7 @@ def int_alphabet(d):
 
 
 def run_int_to_fp(d):
-    ev = build('InttoFP_SP')
+    ev = build('InttoFP_SP', direct=bool(d.get('direct')))
     col = Collector(d)
     evals = nontriv = 0
     outcomes = set()
@@ -507,7 +518,7 @@ def run_int_to_fp(d):
 
 
 def run_fp_to_int(d):
-    ev = build('FPtoInt_SP')
+    ev = build('FPtoInt_SP', direct=bool(d.get('direct')))
     col = Collector(d)
     evals = nontriv = skipped = 0
     outcomes = set()
@@ -552,7 +563,7 @@ def replay(v):
     """Plain re-evaluation of the recorded operands on a freshly built block, judged with the Fraction oracle."""
     d = v['shard']
     blk = d['block']
-    ev = build(blk)
+    ev = build(blk, direct=bool(d.get('direct')))
     steps, classes = [], []
     for t in v['trace']:
         got = ev(*t)
